@@ -3,6 +3,8 @@
 import json, os
 ROOT = os.path.dirname(os.path.dirname(os.path.abspath(__file__)))
 
+COMMON = "Trusts: rapid (outer: project models; inner: requests, compiled into the project); the route model written by the framework (internal/projgen/router.go) and the oracles in internal/projgen/harness_template.go.txt; httptest recorders / fiber app.Test stand in for sockets; generator preconditions listed in the evidence assumptions (unreserved path values, non-empty headers, no overlapping same-verb routes, one wildcard name per tree position, echo's greedy last parameter)."
+
 CHECKS = {
  "C15": dict(
   technique="property-based testing (rapid): generated route lists + permutation vs brute-force O(n^2) overlap reference",
@@ -84,6 +86,22 @@ CHECKS = {
   text="Generated-input search over projects whose parameter names collide with identifiers the handlers declare, whose types come from several packages behind slices/pointers/maps, with every result shape, custom errors by value and pointer, experimental flags, response validation and configured package names. Whenever generation succeeds, each of the five routes files must parse, sit in the configured package and type-check (go vet) against the engine, the user's controllers and the authorization package; gofmt -l is evaluated; a failed generation must leave no file. Compile failures are attributed by experiment (same project with the colliding parameters renamed). Sampling.",
   note="Trusts: rapid; go vet as the type checker; the framework's own stubs/auth packages compile (checked by the same run).",
   ref="6/C09"),
+ "C02": dict(
+  technique="two-level property testing with rapid: generated batch projects -> five real generated routers compiled and mounted -> generated positive and negative request probes; oracle = call trace recorded by controller stubs vs the route model",
+  text="Generated-input search over projects and requests: every annotated route (hidden ones included) gets positive probes that must reach exactly that controller method on gin, echo, mux, chi and fiber; negative probes obtained by mutation (other verb, extra/missing/changed segment, another controller's prefix, would-be paths of decoy methods) must reach no controller on any engine. The route model is the same object C01's prediction uses, so documented subset-of served and the difference being the hidden routes follow. Sampling over projects (few) and requests (thousands).",
+  note=COMMON, ref="6/C02"),
+ "C03": dict(
+  technique="two-level property testing with rapid: generated projects x generated authorization policies x valid/invalid requests; oracle = ordered trace of authorization checks and controller calls on five mounted routers",
+  text="Generated-input search over security configurations (method / controller / default, several alternatives, scopes) and per-request approve/refuse policies combined with valid and deliberately invalid parameters. From the trace: the controller runs only if an alternative of the model's effective security was fully approved earlier in the trace; the checks consulted are the prefix-closed walk of the alternatives in order; when all are refused there is no call, the last refusal's status and message/custom payload are returned and never a 422 (the gate precedes parsing); unsecured routes consult nothing. Sampling.",
+  note=COMMON, ref="6/C03"),
+ "C05": dict(
+  technique="two-level property testing with rapid: typed value generators per declared Go type and location (boundaries, unicode, reserved characters) + absent / ill-typed / validator-violating states; round trip request -> controller arguments on five routers",
+  text="Generated-input search over parameter lists (every primitive width, enums, aliases, query slices, pointers, context parameters, JSON bodies, form fields, wire-name aliases, validators) and requests in which each parameter is independently valid, absent, ill-typed or validator-violating. All valid => exactly one call whose recorded arguments equal the sent values position by position (nil iff an optional pointer is absent, context non-nil); otherwise 422 and no call; a crashing handler is a violation. Sampling.",
+  note=COMMON+" Validator semantics re-implemented for required/gt/gte/lt/lte/min/max/len/oneof and example-based for email/uuid/ipv4/hostname; other rules and slice-level validators leave the outcome unconstrained.", ref="6/C05"),
+ "C12": dict(
+  technique="differential property testing with rapid: the same generated requests against the five routers generated from one project; tuples (call, arguments, status, JSON body) compared",
+  text="Generated-input search over requests of every kind (valid, missing/ill-typed/validator-violating parameters, malformed bodies, refusals, operation errors of plain and custom error types, custom status codes): the five engines must invoke the same method with equal arguments (or none) and answer with the same status and JSON-equivalent body; any disagreement names the odd engine. Sampling.",
+  note=COMMON+" Content-Type is not compared (the statement speaks of status and JSON-equivalent body).", ref="6/C12"),
 }
 
 NOT_APPLICABLE = []
